@@ -370,6 +370,16 @@ func (s *mstream) filteredKey(setIdx int, set []vk.KV) string {
 // it is one of the first L-1 distinct sets of the current lifetime, otherwise
 // the measurement is aggregated under the overflow set.
 func (s *mstream) measure(setIdx int, set []vk.KV, rawKey string, v float64) {
+	if nonFiniteValue(v) {
+		if s.agg.kind == aExpo {
+			// pinned behaviour: the base-2 exponential aggregation ignores
+			// non-finite values by design (before looking at the attributes):
+			// no data point, no identity slot, not counted
+			s.classes = append(s.classes, "non_finite_ignored_by_exponential_histogram(pinned)")
+			return
+		}
+		s.classes = append(s.classes, "non_finite_measurement/"+aggNames[s.agg.kind])
+	}
 	fk := s.filteredKey(setIdx, set)
 	if rawKey == overflowKey {
 		s.explicitOvf = true
@@ -421,6 +431,12 @@ func (s *mstream) measure(setIdx int, set []vk.KV, rawKey string, v float64) {
 	if p == nil {
 		p = &mpoint{}
 		s.pts[key] = p
+		if nonFiniteValue(v) && key != overflowKey {
+			s.classes = append(s.classes, "set_whose_first_measurement_is_non_finite_takes_identity")
+		}
+	}
+	if nonFiniteValue(v) && key == overflowKey && fk != overflowKey {
+		s.classes = append(s.classes, "non_finite_measurement_folded_into_overflow")
 	}
 	p.add(v)
 	s.scopeSum += v
@@ -469,6 +485,14 @@ func (s *mstream) collect() (exp map[string]expPoint, scopeSum float64, scopeCou
 
 func opValue(op Op, float bool) float64 {
 	if float {
+		switch op.NF {
+		case 1:
+			return math.Inf(1)
+		case 2:
+			return math.NaN()
+		case 3:
+			return math.Inf(-1)
+		}
 		return math.Ldexp(float64(op.K), op.E)
 	}
 	return float64(op.K)
